@@ -275,6 +275,31 @@ def build_table():
             add(name, "set", None, v, d3, rb3, f"{name}={v!r}"[:50])
         # bytes offered to a numeric array: a sequence of in-range ints -- statement silent
         add(name, "set", None, b"\x01" * n, DONTCARE, None, f"{name}=bytes")
+        # C arrays as values (same / other width and signedness): judged like the list of their elements
+        for cname, ct in (("c_int8", ctypes.c_int8), ("c_uint8", ctypes.c_uint8), ("c_int16", ctypes.c_int16),
+                          ("c_uint16", ctypes.c_uint16), ("c_int32", ctypes.c_int32), ("c_uint32", ctypes.c_uint32),
+                          ("c_int64", ctypes.c_int64), ("c_uint64", ctypes.c_uint64), ("c_float", ctypes.c_float),
+                          ("c_double", ctypes.c_double)):
+            is_f = cname in ("c_float", "c_double")
+            if is_f:
+                cvals = [[1.5] * n, [float("inf")] + [0.0] * (n - 1), [0.0] * (n - 1) + [1e39 if cname == "c_double" else 1.0]]
+            else:
+                lo_c = -(2 ** (8 * ctypes.sizeof(ct) - 1)) if cname.startswith("c_int") else 0
+                hi_c = (2 ** (8 * ctypes.sizeof(ct) - 1) - 1) if cname.startswith("c_int") else 2 ** (8 * ctypes.sizeof(ct)) - 1
+                cvals = [[1] * n, [hi_c] + [1] * (n - 1), [1] * (n - 1) + [lo_c], [2] * (n // 2) + [hi_c] + [3] * (n - n // 2 - 1)]
+            for vals in cvals:
+                vals = vals[:n]
+                as_list = [ct(v).value for v in vals]
+                d6, rb6 = seq_domain(kind, as_list, n)
+                if (kind in ("f32", "f64")) != is_f and d6 == ACCEPT:
+                    d6 = DONTCARE      # int C array into a float field (or the reverse): statement silent on acceptance
+                add(name, "set", None, ("carray", cname, tuple(vals)), d6, rb6, f"{name}=({cname}*{n}){tuple(vals)!r}"[:70])
+                m2 = len(range(*slice(0, 2).indices(n)))
+                d7, rb7 = seq_domain(kind, as_list[:m2], m2)
+                if (kind in ("f32", "f64")) != is_f and d7 == ACCEPT:
+                    d7 = DONTCARE
+                add(name, "slice", slice(0, 2), ("carray", cname, tuple(vals[:m2])), d7, rb7,
+                    f"{name}[0:2]=({cname}*{m2}){tuple(vals[:m2])!r}"[:70])
         for i in (0, n - 1, -1, -n):
             for v in [good_elem(kind, 1)] + bad_elems(kind) + ([float("nan")] if kind in ("f32", "f64") else [True]):
                 d4, rb4 = elem_domain(kind, v)
@@ -358,6 +383,9 @@ def materialise(v):
         return C["OTHER"]()
     if isinstance(v, tuple) and v and v[0] == "cls_inner":
         return C["INNER"]
+    if isinstance(v, tuple) and v and v[0] == "carray":
+        ct = getattr(ctypes, v[1])
+        return (ct * len(v[2]))(*v[2])
     if isinstance(v, list):
         return [materialise(x) for x in v]
     return v
@@ -384,7 +412,7 @@ def field_span(msg, field):
     return d.offset, d.offset + d.size
 
 
-def do_assign(msg, case: Case, in_force: bool, res: RunResult, who: str):
+def do_assign(msg, case: Case, in_force: bool, res: RunResult, who: str, accessor=None):
     """perform one table case on msg and judge it"""
     C = classes()
     before = bytes(msg)
@@ -406,7 +434,7 @@ def do_assign(msg, case: Case, in_force: bool, res: RunResult, who: str):
         if case.op in ("set", "from"):
             setattr(msg, case.field, value)
         elif case.op in ("item", "slice"):
-            getattr(msg, case.field)[case.key] = value
+            (accessor if accessor is not None else getattr(msg, case.field))[case.key] = value
     except Exception as e:          # any exception counts as a refusal
         raised = e
     after = bytes(msg)
@@ -502,9 +530,13 @@ class ValidationRun:
         out = []
         tbl = table()
         for _ in range(n):
-            k = ch.weighted("prog.op", [(5, "assign"), (3, "probe"), (4 if depth < 3 else 0, "block")])
+            k = ch.weighted("prog.op", [(5, "assign"), (3, "probe"), (4 if depth < 3 else 0, "block"), (2, "grab"), (3, "use")])
             if k == "assign":
                 out.append(("assign", ch.pick("prog.case", len(tbl))))
+            elif k == "grab":
+                out.append(("grab", ch.choose("prog.grabf", ["ia", "ua", "fa", "da", "ba", "sa", "la"])))
+            elif k == "use":
+                out.append(("use", ch.pick("prog.case", len(tbl))))
             elif k == "probe":
                 out.append(("probe",))
             else:
@@ -534,6 +566,29 @@ class ValidationRun:
                     return
                 self.t(f"{who} depth={real_depth}: {case.label}")
                 do_assign(msg, case, in_force, res, who)
+            elif op[0] == "grab":
+                # keep an array accessor obtained now (possibly inside a block) for later use
+                acc = getattr(self, "_acc_" + who, None)
+                if acc is None:
+                    acc = {}
+                    setattr(self, "_acc_" + who, acc)
+                acc[op[1]] = (getattr(msg, op[1]), real_depth)
+                self.t(f"{who} depth={real_depth}: keep accessor msg.{op[1]}")
+            elif op[0] == "use":
+                acc = getattr(self, "_acc_" + who, None) or {}
+                case = tbl[op[1]]
+                if case.field in acc and case.op in ("item", "slice"):
+                    if in_force and not self.in_force_now(msg):
+                        res.add("C09", "validation_off_outside_block",
+                                f"{who}: not inside any disable block (own depth 0) but i8=1000 was accepted",
+                                sig="validation_off_outside_block")
+                        setattr(self, "_abort_" + who, True)
+                        return
+                    a, d0 = acc[case.field]
+                    self.t(f"{who} depth={real_depth}: {case.label} through the accessor kept at depth {d0}")
+                    if in_force and d0 > 0:
+                        res.probes["stale_accessor_used_in_force"] += 1
+                    do_assign(msg, case, in_force, res, who, accessor=a)
             elif op[0] == "probe":
                 before = bytes(msg)
                 accepted = True
